@@ -6,11 +6,16 @@ use std::panic;
 
 mod util;
 mod ops_dos;
+mod ops_path;
+mod mkzip;
 
 pub use util::*;
 
 fn dispatch(op: &str, args: &[Arg]) -> String {
     if let Some(r) = ops_dos::dispatch(op, args) {
+        return r;
+    }
+    if let Some(r) = ops_path::dispatch(op, args) {
         return r;
     }
     "BADOP".to_string()
